@@ -54,6 +54,7 @@ def init(repo_root):
         pass
     from . import ensemble_model  # noqa: F401
     from . import maps  # noqa: F401
+    from . import mat2  # noqa: F401  content-level 2-D arrays / frames (injectors)
     return _STATE["repo"], _STATE["reg"]
 
 
